@@ -38,6 +38,9 @@ var (
 	monadic = map[string]bool{}
 	// methods that read or write their (pointer) receiver
 	usesRecv = map[string]bool{}
+	// the functions of plenccore (translated separately into GenCore.v) and which of them are monadic
+	coreFuncs   = map[string]bool{}
+	coreMonadic = map[string]bool{}
 )
 
 func fail(n ast.Node, format string, args ...any) {
@@ -57,6 +60,25 @@ type ikind struct {
 }
 
 func intKind(t types.Type) (ikind, bool) {
+	if tp, ok := t.(*types.TypeParam); ok {
+		// a type parameter constrained to integer types of one signedness: its width is the Gallina variable w
+		if iface, ok := tp.Constraint().Underlying().(*types.Interface); ok && iface.NumEmbeddeds() == 1 {
+			if u, ok := iface.EmbeddedType(0).(*types.Union); ok && u.Len() > 0 {
+				first, ok1 := intKind(u.Term(0).Type())
+				if !ok1 {
+					return ikind{}, false
+				}
+				for i := 1; i < u.Len(); i++ {
+					k, ok2 := intKind(u.Term(i).Type())
+					if !ok2 || k.signed != first.signed {
+						return ikind{}, false
+					}
+				}
+				return ikind{first.signed, -1}, true
+			}
+		}
+		return ikind{}, false
+	}
 	b, ok := t.Underlying().(*types.Basic)
 	if !ok {
 		return ikind{}, false
@@ -200,6 +222,39 @@ type gen struct {
 	recv   string // name of a pointer receiver the method uses ("" otherwise)
 	recvT  string // its record type
 	places map[string]place
+	// unsafe.Pointer parameters: the value they point to travels instead (name -> Go type it is read at);
+	// those the function writes through are handed back with the results
+	ptrs    map[string]types.Type
+	ptrsOut []string
+	generic bool // the receiver type has an integer type parameter: width w
+}
+
+// derefOf: e is *(*T)(p) for an unsafe.Pointer parameter p: returns p's name and T
+func derefOf(e ast.Expr) (string, types.Type, bool) {
+	st, ok := e.(*ast.StarExpr)
+	if !ok {
+		return "", nil, false
+	}
+	c, ok := st.X.(*ast.CallExpr)
+	if !ok || len(c.Args) != 1 {
+		return "", nil, false
+	}
+	id, ok := c.Args[0].(*ast.Ident)
+	if !ok {
+		return "", nil, false
+	}
+	if o := info.Uses[id]; o == nil || o.Type().String() != "unsafe.Pointer" {
+		return "", nil, false
+	}
+	tv, ok := info.Types[c.Fun]
+	if !ok || !tv.IsType() {
+		return "", nil, false
+	}
+	pt, ok := tv.Type.(*types.Pointer)
+	if !ok {
+		return "", nil, false
+	}
+	return id.Name, pt.Elem(), true
 }
 
 // place: a variable holding &container[idx]
@@ -210,17 +265,66 @@ type place struct {
 	elemT   string
 }
 
+// fkey: how a function or method is known to the translator ("f", "T.m")
+func fkey(fd *ast.FuncDecl) string {
+	if fd.Recv != nil {
+		return recvBase(fd) + "." + fd.Name.Name
+	}
+	return fd.Name.Name
+}
+
+// recvBase: the receiver's type name without pointer and type arguments
+func recvBase(fd *ast.FuncDecl) string {
+	e := fd.Recv.List[0].Type
+	for {
+		switch x := e.(type) {
+		case *ast.StarExpr:
+			e = x.X
+			continue
+		case *ast.IndexExpr:
+			e = x.X
+			continue
+		case *ast.ParenExpr:
+			e = x.X
+			continue
+		case *ast.Ident:
+			return x.Name
+		}
+		fail(fd, "unsupported receiver")
+	}
+}
+
+// methodKey: the key of the method a selector call refers to ("" if it is not a call of a translated method)
+func methodKey(sel *ast.SelectorExpr) string {
+	tv, ok := info.Types[sel.X]
+	if !ok || tv.Type == nil {
+		return ""
+	}
+	t := tv.Type
+	if p, ok := t.(*types.Pointer); ok {
+		t = p.Elem()
+	}
+	n, ok := t.(*types.Named)
+	if !ok {
+		return ""
+	}
+	k := n.Obj().Name() + "." + sel.Sel.Name
+	if _, ok := funcs[k]; ok {
+		return k
+	}
+	return ""
+}
+
 // coqName: the name of a function / method in the generated file
 func coqName(fd *ast.FuncDecl) string {
-	if fd.Recv != nil && usesRecv[fd.Name.Name] {
-		return recvTypeName(fd) + "_" + fd.Name.Name
+	if fd.Recv != nil {
+		return recvBase(fd) + "_" + fd.Name.Name
 	}
 	return sane(fd.Name.Name)
 }
 
 func recvTypeName(fd *ast.FuncDecl) string {
-	t := info.Defs[fd.Recv.List[0].Names[0]].Type()
-	return coqType(t, fd)
+	return recvBase(fd)
 }
 
 func sane(name string) string {
@@ -283,6 +387,9 @@ func (g *gen) expr(e ast.Expr, pre *[]string) string {
 	}
 	if tv.Value != nil && tv.Value.Kind() == constant.String {
 		return bytesLit(constant.StringVal(tv.Value))
+	}
+	if name, _, ok := derefOf(e); ok {
+		return sane(name)
 	}
 	switch x := e.(type) {
 	case *ast.ParenExpr:
@@ -352,7 +459,7 @@ func (g *gen) expr(e ast.Expr, pre *[]string) string {
 			if !ok || !k.signed {
 				fail(e, "unary minus on %s", tv.Type)
 			}
-			return fmt.Sprintf("(sneg %d %s)", k.width, g.expr(x.X, pre))
+			return fmt.Sprintf("(sneg %s %s)", wd(k), g.expr(x.X, pre))
 		case token.NOT:
 			return "(negb " + g.expr(x.X, pre) + ")"
 		}
@@ -436,9 +543,9 @@ func (g *gen) binary(x *ast.BinaryExpr, pre *[]string) string {
 		c := g.shiftCount(x.Y, pre)
 		switch {
 		case x.Op == token.SHL && k.signed:
-			return fmt.Sprintf("(sshl %d %s %s)", k.width, a, c)
+			return fmt.Sprintf("(sshl %s %s %s)", wd(k), a, c)
 		case x.Op == token.SHL:
-			return fmt.Sprintf("(ushl %d %s %s)", k.width, a, c)
+			return fmt.Sprintf("(ushl %s %s %s)", wd(k), a, c)
 		case k.signed:
 			return fmt.Sprintf("(sshr %s %s)", a, c)
 		}
@@ -454,11 +561,11 @@ func (g *gen) binary(x *ast.BinaryExpr, pre *[]string) string {
 	}
 	switch x.Op {
 	case token.ADD:
-		return fmt.Sprintf("(%sadd %d %s %s)", p, k.width, a, b)
+		return fmt.Sprintf("(%sadd %s %s %s)", p, wd(k), a, b)
 	case token.SUB:
-		return fmt.Sprintf("(%ssub %d %s %s)", p, k.width, a, b)
+		return fmt.Sprintf("(%ssub %s %s %s)", p, wd(k), a, b)
 	case token.MUL:
-		return fmt.Sprintf("(%smul %d %s %s)", p, k.width, a, b)
+		return fmt.Sprintf("(%smul %s %s %s)", p, wd(k), a, b)
 	case token.QUO, token.REM:
 		// only by a non-zero constant (anything else can panic: outside the subset)
 		if dv := info.Types[x.Y].Value; dv == nil || constant.Sign(dv) == 0 {
@@ -469,7 +576,7 @@ func (g *gen) binary(x *ast.BinaryExpr, pre *[]string) string {
 			name = "rem"
 		}
 		if k.signed {
-			return fmt.Sprintf("(s%s %d %s %s)", name, k.width, a, b)
+			return fmt.Sprintf("(s%s %s %s %s)", name, wd(k), a, b)
 		}
 		return fmt.Sprintf("(u%s %s %s)", name, a, b)
 	case token.AND:
@@ -507,7 +614,7 @@ func (g *gen) call(x *ast.CallExpr, pre *[]string) string {
 		if from.width == 0 {
 			return a // a constant: already printed at its type
 		}
-		return fmt.Sprintf("(%s2%s %d %s)", sgn(from), sgn(to), to.width, a)
+		return fmt.Sprintf("(%s2%s %s %s)", sgn(from), sgn(to), wd(to), a)
 	}
 	switch f := x.Fun.(type) {
 	case *ast.Ident:
@@ -545,19 +652,39 @@ func (g *gen) call(x *ast.CallExpr, pre *[]string) string {
 		}
 	case *ast.SelectorExpr:
 		if p, ok := f.X.(*ast.Ident); ok {
-			if fd, isM := funcs[f.Sel.Name]; isM && fd.Recv != nil && info.Uses[p] != nil {
-				if _, isVar := info.Uses[p].(*types.Var); isVar {
-					if usesRecv[f.Sel.Name] {
-						fail(x, "a method that changes its receiver is called inside an expression")
-					}
-					var args []string
-					for _, a := range x.Args {
-						args = append(args, g.expr(a, pre))
-					}
+			if mk := methodKey(f); mk != "" {
+				fd := funcs[mk]
+				if usesRecv[mk] {
+					fail(x, "a method that changes its receiver is called inside an expression")
+				}
+				var args []string
+				for _, a := range x.Args {
+					args = append(args, g.expr(a, pre))
+				}
+				if _, isGeneric := fd.Recv.List[0].Type.(*ast.IndexExpr); isGeneric {
+					args = append([]string{"w"}, args...)
+				}
+				if monadic[mk] {
 					t := g.fresh("r")
 					*pre = append(*pre, fmt.Sprintf("do %s <- %s fuel %s;", t, coqName(fd), strings.Join(args, " ")))
 					return t
 				}
+				return "(" + coqName(fd) + " " + strings.Join(args, " ") + ")"
+			}
+			if p.Name == "plenccore" && coreFuncs[f.Sel.Name] {
+				var args []string
+				for _, a := range x.Args {
+					args = append(args, g.expr(a, pre))
+				}
+				if coreMonadic[f.Sel.Name] {
+					if !g.mon {
+						fail(x, "call of monadic plenccore.%s from a pure function", f.Sel.Name)
+					}
+					t := g.fresh("r")
+					*pre = append(*pre, fmt.Sprintf("do %s <- GenCore.%s fuel %s;", t, f.Sel.Name, strings.Join(args, " ")))
+					return t
+				}
+				return "(GenCore." + f.Sel.Name + " " + strings.Join(args, " ") + ")"
 			}
 			name := p.Name + "." + f.Sel.Name
 			switch name {
@@ -572,6 +699,13 @@ func (g *gen) call(x *ast.CallExpr, pre *[]string) string {
 	return ""
 }
 
+func wd(k ikind) string {
+	if k.width < 0 {
+		return "w"
+	}
+	return fmt.Sprintf("%d", k.width)
+}
+
 func sgn(k ikind) string {
 	if k.signed {
 		return "s"
@@ -584,9 +718,14 @@ func sgn(k ikind) string {
 // ret builds the function's return value from a return statement
 // retval: the value a return hands back - the (threaded) receiver first, then the results
 func (g *gen) retval(vals []string) string {
+	var front []string
 	if g.recv != "" {
-		vals = append([]string{sane(g.recv)}, vals...)
+		front = append(front, sane(g.recv))
 	}
+	for _, p := range g.ptrsOut {
+		front = append(front, sane(p))
+	}
+	vals = append(front, vals...)
 	if len(vals) == 0 {
 		return "tt"
 	}
@@ -610,7 +749,7 @@ func (g *gen) ret(r *ast.ReturnStmt, wrap func(string) string) string {
 		}
 		return wrap(g.retval(vals))
 	}
-	if len(res) == 1 && g.recv == "" {
+	if len(res) == 1 && g.recv == "" && len(g.ptrsOut) == 0 {
 		if c, ok := res[0].(*ast.CallExpr); ok {
 			if tv := info.Types[c]; tv.Type != nil {
 				if _, isTuple := tv.Type.(*types.Tuple); isTuple {
@@ -689,7 +828,7 @@ func (g *gen) assigned(stmts []ast.Stmt, out map[string]bool) {
 			case *ast.ExprStmt:
 				if c, ok := a.X.(*ast.CallExpr); ok {
 					if sel, ok := c.Fun.(*ast.SelectorExpr); ok {
-						if id, ok := sel.X.(*ast.Ident); ok && g.recv != "" && id.Name == g.recv && usesRecv[sel.Sel.Name] {
+						if id, ok := sel.X.(*ast.Ident); ok && g.recv != "" && id.Name == g.recv && usesRecv[methodKey(sel)] {
 							out[g.recv] = true
 						}
 					}
@@ -780,13 +919,14 @@ func (g *gen) block(stmts []ast.Stmt, k string, retwrap func(string) string, ind
 		}
 		var pre []string
 		cur := g.expr(x.X, &pre)
-		return strings.Join(pre, "\n"+ind) + nl(pre, ind) + g.store(x.X, fmt.Sprintf("(%s%s %d %s %s)", sgn(k0), op, k0.width, cur, one), ind) + rest()
+		return strings.Join(pre, "\n"+ind) + nl(pre, ind) + g.store(x.X, fmt.Sprintf("(%s%s %s %s %s)", sgn(k0), op, wd(k0), cur, one), ind) + rest()
 	case *ast.ExprStmt:
 		// a call of a method that changes the receiver: j.m(args)
 		if c, ok := x.X.(*ast.CallExpr); ok {
 			if sel, ok := c.Fun.(*ast.SelectorExpr); ok {
 				if id, ok := sel.X.(*ast.Ident); ok && g.recv != "" && id.Name == g.recv {
-					if fd, ok := funcs[sel.Sel.Name]; ok && fd.Recv != nil && usesRecv[sel.Sel.Name] {
+					if mk := methodKey(sel); mk != "" && usesRecv[mk] {
+						fd := funcs[mk]
 						if fd.Type.Results != nil && len(fd.Type.Results.List) > 0 {
 							fail(x, "result of a method call dropped")
 						}
@@ -864,6 +1004,22 @@ func (g *gen) block(stmts []ast.Stmt, k string, retwrap func(string) string, ind
 		return g.rangeLoop(x, stmts[1:], k, retwrap, ind)
 	case *ast.EmptyStmt:
 		return rest()
+	case *ast.DeclStmt:
+		gd, ok := x.Decl.(*ast.GenDecl)
+		if !ok || gd.Tok != token.VAR {
+			fail(s, "unsupported declaration")
+		}
+		out := ""
+		for _, sp := range gd.Specs {
+			vs := sp.(*ast.ValueSpec)
+			if len(vs.Values) != 0 {
+				fail(s, "var with an initialiser")
+			}
+			for _, n := range vs.Names {
+				out += fmt.Sprintf("let %s := %s in\n%s", sane(n.Name), zeroOf(info.Defs[n].Type(), s), ind)
+			}
+		}
+		return out + rest()
 	}
 	fail(s, "unsupported statement %T", s)
 	return ""
@@ -871,6 +1027,9 @@ func (g *gen) block(stmts []ast.Stmt, k string, retwrap func(string) string, ind
 
 // store: the bindings that assign v to the place lhs denotes
 func (g *gen) store(lhs ast.Expr, v string, ind string) string {
+	if name, _, ok := derefOf(lhs); ok {
+		return fmt.Sprintf("let %s := %s in\n%s", sane(name), v, ind)
+	}
 	switch l := lhs.(type) {
 	case *ast.Ident:
 		return fmt.Sprintf("let %s := %s in\n%s", sane(l.Name), v, ind)
@@ -970,10 +1129,14 @@ func endsInReturn(l []ast.Stmt) bool {
 }
 
 func (g *gen) retType() string {
-	ts := g.rtypes
+	var ts []string
 	if g.recv != "" {
-		ts = append([]string{g.recvT}, ts...)
+		ts = append(ts, g.recvT)
 	}
+	for _, p := range g.ptrsOut {
+		ts = append(ts, coqType(g.ptrs[p], g.fn))
+	}
+	ts = append(ts, g.rtypes...)
 	if len(ts) == 0 {
 		return "unit"
 	}
@@ -1156,9 +1319,100 @@ func (g *gen) rangeLoop(x *ast.RangeStmt, after []ast.Stmt, k string, retwrap fu
 
 // ---- functions ----
 
+// ptrTypeOf: the type an unsafe.Pointer parameter of a translated function is used at
+// (directly, or by being handed on to another translated method), nil if it is not used
+func ptrTypeOf(fd *ast.FuncDecl, param string, depth int) types.Type {
+	if depth > 8 {
+		return nil
+	}
+	var found types.Type
+	ast.Inspect(fd.Body, func(n ast.Node) bool {
+		if e, ok := n.(ast.Expr); ok {
+			if name, t, ok := derefOf(e); ok && name == param {
+				found = t
+			}
+		}
+		return true
+	})
+	if found != nil {
+		return found
+	}
+	for name, t := range forwardedPtrTypesDepth(fd, depth+1) {
+		if name == param {
+			return t
+		}
+	}
+	return nil
+}
+
+func forwardedPtrTypes(fd *ast.FuncDecl) map[string]types.Type { return forwardedPtrTypesDepth(fd, 0) }
+
+func forwardedPtrTypesDepth(fd *ast.FuncDecl, depth int) map[string]types.Type {
+	out := map[string]types.Type{}
+	ast.Inspect(fd.Body, func(n ast.Node) bool {
+		c, ok := n.(*ast.CallExpr)
+		if !ok {
+			return true
+		}
+		sel, ok := c.Fun.(*ast.SelectorExpr)
+		if !ok {
+			return true
+		}
+		mk := methodKey(sel)
+		if mk == "" {
+			return true
+		}
+		callee := funcs[mk]
+		var pnames []string
+		for _, f := range callee.Type.Params.List {
+			for _, nm := range f.Names {
+				pnames = append(pnames, nm.Name)
+			}
+		}
+		for i, a := range c.Args {
+			id, ok := a.(*ast.Ident)
+			if !ok || i >= len(pnames) {
+				continue
+			}
+			if o := info.Uses[id]; o == nil || o.Type().String() != "unsafe.Pointer" {
+				continue
+			}
+			if t := ptrTypeOf(callee, pnames[i], depth); t != nil {
+				out[id.Name] = t
+			}
+		}
+		return true
+	})
+	return out
+}
+
+// onlyCallsThrough: every use of the (value) receiver is the receiver of a method call
+func onlyCallsThrough(fd *ast.FuncDecl) bool {
+	rn := fd.Recv.List[0].Names[0]
+	ok := true
+	callRecv := map[*ast.Ident]bool{}
+	ast.Inspect(fd.Body, func(n ast.Node) bool {
+		if c, isCall := n.(*ast.CallExpr); isCall {
+			if sel, isSel := c.Fun.(*ast.SelectorExpr); isSel {
+				if id, isId := sel.X.(*ast.Ident); isId {
+					callRecv[id] = true
+				}
+			}
+		}
+		return true
+	})
+	ast.Inspect(fd.Body, func(n ast.Node) bool {
+		if id, isId := n.(*ast.Ident); isId && info.Uses[id] != nil && info.Uses[id] == info.Defs[rn] && !callRecv[id] {
+			ok = false
+		}
+		return true
+	})
+	return ok
+}
+
 func hasLoopOrEffect(fd *ast.FuncDecl) bool {
 	found := false
-	ast.Inspect(fd, func(n ast.Node) bool {
+	ast.Inspect(fd.Body, func(n ast.Node) bool {
 		switch x := n.(type) {
 		case *ast.ForStmt, *ast.RangeStmt, *ast.SliceExpr:
 			found = true
@@ -1169,7 +1423,10 @@ func hasLoopOrEffect(fd *ast.FuncDecl) bool {
 				found = true
 			}
 			if sel, ok := x.Fun.(*ast.SelectorExpr); ok {
-				if _, ok := funcs[sel.Sel.Name]; ok && monadic[sel.Sel.Name] {
+				if p, ok := sel.X.(*ast.Ident); ok && p.Name == "plenccore" && coreMonadic[sel.Sel.Name] {
+					found = true
+				}
+				if mk := methodKey(sel); mk != "" && monadic[mk] {
 					found = true
 				}
 			}
@@ -1183,8 +1440,56 @@ func (g *gen) function() string {
 	fd := g.fn
 	sig := info.Defs[fd.Name].Type().(*types.Signature)
 	var params []string
+	// unsafe.Pointer parameters: what is read / written through them
+	g.ptrs = map[string]types.Type{}
+	written := map[string]bool{}
+	ast.Inspect(fd.Body, func(n ast.Node) bool {
+		if e, ok := n.(ast.Expr); ok {
+			if name, t, ok := derefOf(e); ok {
+				if old, seen := g.ptrs[name]; seen && !types.Identical(old, t) {
+					fail(e, "pointer %s is used at two types", name)
+				}
+				g.ptrs[name] = t
+			}
+		}
+		if a, ok := n.(*ast.AssignStmt); ok {
+			for _, l := range a.Lhs {
+				if name, _, ok := derefOf(l); ok {
+					written[name] = true
+				}
+			}
+		}
+		return true
+	})
+	for name, t := range forwardedPtrTypes(fd) {
+		if _, seen := g.ptrs[name]; !seen {
+			g.ptrs[name] = t
+		}
+	}
+	if fd.Recv != nil {
+		if _, isGeneric := fd.Recv.List[0].Type.(*ast.IndexExpr); isGeneric {
+			g.generic = true
+			params = append(params, "(w : N)")
+		}
+	}
 	for i := 0; i < sig.Params().Len(); i++ {
 		p := sig.Params().At(i)
+		if p.Type().String() == "unsafe.Pointer" {
+			t, used := g.ptrs[p.Name()]
+			if !used {
+				params = append(params, fmt.Sprintf("(%s : unit)", sane(p.Name())))
+				continue
+			}
+			params = append(params, fmt.Sprintf("(%s : %s)", sane(p.Name()), coqType(t, fd)))
+			if written[p.Name()] {
+				g.ptrsOut = append(g.ptrsOut, p.Name())
+			}
+			continue
+		}
+		if p.Name() == "" || p.Name() == "_" {
+			params = append(params, fmt.Sprintf("(_ : %s)", coqType(p.Type(), fd)))
+			continue
+		}
 		params = append(params, fmt.Sprintf("(%s : %s)", sane(p.Name()), coqType(p.Type(), fd)))
 	}
 	for i := 0; i < sig.Results().Len(); i++ {
@@ -1198,8 +1503,8 @@ func (g *gen) function() string {
 		}
 		g.rtypes = append(g.rtypes, coqType(r.Type(), fd))
 	}
-	g.mon = monadic[fd.Name.Name]
-	if fd.Recv != nil && usesRecv[fd.Name.Name] {
+	g.mon = monadic[fkey(fd)]
+	if fd.Recv != nil && usesRecv[fkey(fd)] {
 		g.recv = fd.Recv.List[0].Names[0].Name
 		g.recvT = recvTypeName(fd)
 		params = append([]string{fmt.Sprintf("(%s : %s)", sane(g.recv), g.recvT)}, params...)
@@ -1225,6 +1530,99 @@ func (g *gen) function() string {
 	return fmt.Sprintf("(* %s *)\nDefinition %s %s%s : %s :=\n  %s%s.\n", posOf(fd), coqName(fd), fuel, strings.Join(params, " "), rt, pre, body)
 }
 
+// repoImporter resolves the module's own packages from the repository's source
+// and everything else from the standard library's source
+type repoImporter struct {
+	repo  string
+	std   types.Importer
+	cache map[string]*types.Package
+}
+
+func (ri *repoImporter) Import(path string) (*types.Package, error) {
+	const mod = "github.com/philpearl/plenc"
+	if path != mod && !strings.HasPrefix(path, mod+"/") {
+		return ri.std.Import(path)
+	}
+	if p, ok := ri.cache[path]; ok {
+		return p, nil
+	}
+	dir := filepath.Join(ri.repo, strings.TrimPrefix(strings.TrimPrefix(path, mod), "/"))
+	pkgs, err := parser.ParseDir(fset, dir, func(fi os.FileInfo) bool { return !strings.HasSuffix(fi.Name(), "_test.go") }, 0)
+	if err != nil {
+		return nil, err
+	}
+	for _, ap := range pkgs {
+		var files []*ast.File
+		var names []string
+		for n := range ap.Files {
+			names = append(names, n)
+		}
+		sort.Strings(names)
+		for _, n := range names {
+			files = append(files, ap.Files[n])
+		}
+		conf := types.Config{Importer: ri}
+		p, err := conf.Check(path, fset, files, nil)
+		if err != nil {
+			return nil, err
+		}
+		ri.cache[path] = p
+		return p, nil
+	}
+	return nil, fmt.Errorf("no package in %s", dir)
+}
+
+// corePass: which functions plenccore has, and which of them the translation puts in the res monad
+func corePass(repo string) {
+	dir := filepath.Join(repo, "plenccore")
+	pkgs, err := parser.ParseDir(fset, dir, func(fi os.FileInfo) bool { return !strings.HasSuffix(fi.Name(), "_test.go") }, 0)
+	if err != nil {
+		fail(nil, "%v", err)
+	}
+	decls := map[string]*ast.FuncDecl{}
+	for _, ap := range pkgs {
+		for _, f := range ap.Files {
+			for _, d := range f.Decls {
+				if fd, ok := d.(*ast.FuncDecl); ok && fd.Recv == nil && fd.Body != nil {
+					decls[fd.Name.Name] = fd
+					coreFuncs[fd.Name.Name] = true
+				}
+			}
+		}
+	}
+	effect := func(fd *ast.FuncDecl) bool {
+		found := false
+		if fd.Type.Results != nil {
+			for _, r := range fd.Type.Results.List {
+				if id, ok := r.Type.(*ast.Ident); ok && id.Name == "error" {
+					found = true
+				}
+			}
+		}
+		ast.Inspect(fd, func(n ast.Node) bool {
+			switch x := n.(type) {
+			case *ast.ForStmt, *ast.RangeStmt, *ast.SliceExpr, *ast.IndexExpr:
+				found = true
+			case *ast.CallExpr:
+				if id, ok := x.Fun.(*ast.Ident); ok && coreMonadic[id.Name] {
+					found = true
+				}
+			}
+			return true
+		})
+		return found
+	}
+	for changed := true; changed; {
+		changed = false
+		for n, fd := range decls {
+			if !coreMonadic[n] && effect(fd) {
+				coreMonadic[n] = true
+				changed = true
+			}
+		}
+	}
+}
+
 func main() {
 	// gotrans <repo> <out.v>                              : all of plenccore
 	// gotrans <repo> <out.v> <pkgdir> <file.go> <f1,f2,..> : the named functions / methods of one file of another package
@@ -1241,6 +1639,10 @@ func main() {
 		}
 	}
 	dir := filepath.Join(os.Args[1], pkgdir)
+	wholePkg := onlyFile == "-"
+	if wholePkg {
+		onlyFile = ""
+	}
 	pkgs, err := parser.ParseDir(fset, dir, func(fi os.FileInfo) bool {
 		if onlyFile != "" {
 			return fi.Name() == onlyFile
@@ -1266,47 +1668,73 @@ func main() {
 	for _, n := range names {
 		files = append(files, p.Files[n])
 	}
-	conf := types.Config{Importer: importer.ForCompiler(fset, "source", nil)}
+	var imp types.Importer = importer.ForCompiler(fset, "source", nil)
+	if wholePkg {
+		corePass(os.Args[1])
+		imp = &repoImporter{repo: os.Args[1], std: imp, cache: map[string]*types.Package{}}
+	}
+	conf := types.Config{Importer: imp}
 	pkg, err = conf.Check(p.Name, fset, files, info)
 	if err != nil {
 		fail(nil, "type check: %v", err)
 	}
 	var order []string
+	selecting := len(want) > 0
 	for _, f := range files {
 		for _, d := range f.Decls {
 			fd, ok := d.(*ast.FuncDecl)
 			if !ok || fd.Body == nil {
 				continue
 			}
-			if len(want) > 0 {
-				if !want[fd.Name.Name] {
+			key := ""
+			if fd.Recv != nil {
+				key = fkey(fd)
+			} else {
+				key = fd.Name.Name
+			}
+			if selecting {
+				switch {
+				case want[key]:
+					delete(want, key)
+				case want[fd.Name.Name]:
+					delete(want, fd.Name.Name)
+				default:
 					continue
 				}
-				delete(want, fd.Name.Name)
 			} else if fd.Recv != nil {
 				continue
 			}
-			if fd.Recv != nil {
+			if fd.Recv != nil && len(fd.Recv.List[0].Names) > 0 {
 				// a method that touches its receiver threads it through as a record
 				for _, fld := range fd.Recv.List {
 					for _, rn := range fld.Names {
 						ast.Inspect(fd.Body, func(n ast.Node) bool {
 							if id, ok := n.(*ast.Ident); ok && info.Uses[id] != nil && info.Uses[id] == info.Defs[rn] {
-								usesRecv[fd.Name.Name] = true
+								// a value receiver that is only used to call other methods carries no state
+								usesRecv[key] = true
 							}
 							return true
 						})
 					}
 				}
-				if usesRecv[fd.Name.Name] {
-					monadic[fd.Name.Name] = true
+				if usesRecv[key] {
 					if _, isPtr := info.Defs[fd.Recv.List[0].Names[0]].Type().(*types.Pointer); !isPtr {
-						fail(fd, "value receiver that is used: outside the subset")
+						if onlyCallsThrough(fd) {
+							usesRecv[key] = false
+						} else {
+							fail(fd, "value receiver that is used: outside the subset")
+						}
 					}
 				}
+				if usesRecv[key] {
+					monadic[key] = true
+				}
 			}
-			funcs[fd.Name.Name] = fd
-			order = append(order, fd.Name.Name)
+			if _, dup := funcs[key]; dup {
+				fail(fd, "two translated functions called %s", key)
+			}
+			funcs[key] = fd
+			order = append(order, key)
 		}
 	}
 	for f := range want {
@@ -1347,8 +1775,8 @@ func main() {
 					}
 				}
 				if sel, ok := c.Fun.(*ast.SelectorExpr); ok {
-					if _, ok := funcs[sel.Sel.Name]; ok && sel.Sel.Name != n {
-						visit(sel.Sel.Name)
+					if mk := methodKey(sel); mk != "" && mk != n {
+						visit(mk)
 					}
 				}
 			}
@@ -1361,14 +1789,21 @@ func main() {
 	}
 	var out strings.Builder
 	out.WriteString("(* GENERATED by /verif/tools/gotrans from " + dir + " " + onlyFile + " - do not edit.\n   One definition per function of the package, translated statement by statement. *)\n")
-	out.WriteString("From Plenc Require Import Base Varint GoSem.\nOpen Scope N_scope.\n\n")
+	out.WriteString("From Plenc Require Import Base Varint GoSem.\n")
+	if wholePkg {
+		out.WriteString("From PlencGen Require GenCore.\n")
+	}
+	out.WriteString("Open Scope N_scope.\n\n")
 	// the package's integer constants
 	scope := pkg.Scope()
 	for _, n := range scope.Names() {
+		if wholePkg {
+			break // constants are folded into the expressions that use them
+		}
 		if c, ok := scope.Lookup(n).(*types.Const); ok {
 			if k, ok := intKind(c.Type()); ok && c.Val().Kind() == constant.Int {
 				out.WriteString(fmt.Sprintf("Definition %s : %s := %s.\n", sane(n), coqType(c.Type(), nil), lit(c.Val(), k, nil)))
-			} else if c.Val().Kind() == constant.String && len(os.Args) == 6 {
+			} else if c.Val().Kind() == constant.String && len(os.Args) == 6 && !wholePkg {
 				out.WriteString(fmt.Sprintf("Definition %s : bytes := %s.\n", sane(n), bytesLit(constant.StringVal(c.Val()))))
 			}
 		}
